@@ -263,6 +263,27 @@ def judge_prepare(prop, op, impl, model, collect):
         return const(True, "the implementation produced a MOC that is not canonical / not inside the domain / not aligned on its declared depth (validB = false)")
     if name in ("st_valid", "st_validflat"):
         return const(True, "the space-time MOC returned by the implementation violates the validity conditions of the property (validSTB / validFlatB = false)")
+    if name == "storelk":
+        # answer = "<output> <lock sections>": the output is determined; the lock sections are judged by the
+        # property's own predicate (Disciplined: sections never nest, everything acquired is released)
+        oi, _, ti = impl.rpartition(" ")
+        om, _, tm = model.rpartition(" ")
+        if oi != om:
+            return const(True, "the store answered differently from the reference registry (model answer proved correct)")
+        held, ok = 0, True
+        for k in range(0, len(ti), 2):
+            ev = ti[k:k + 2]
+            if ev in ("R+", "W+"):
+                if held != 0: ok = False
+                held += 1
+            elif ev in ("R-", "W-"):
+                if held != 1: ok = False
+                held -= 1
+            else:
+                ok = False
+        if not ok or held != 0:
+            return const(True, f"lock sections {ti} of the call nest or are left open (Disciplined = false); the model's are {tm}")
+        return const(False, f"lock sections {ti} differ from the model's {tm} but never nest and are all closed")
     if name == "hintok":
         return const(True, "peek_last / size_hint advertised by the implementation are inconsistent with the ranges it then yields (hintOkB = false)")
     if name.startswith("l_"):
